@@ -224,6 +224,11 @@ def gen_cases(seed, per_class, ctors):
                         kw.append([key, ["i", rng.choice([0, 1, 0xABCDEF, (1 << 64) - 1])]])
             rng.shuffle(kw)
             sa_use = sa if rng.random() < 0.9 else []
+            if (opv >> 5) in (3, 6, 7):
+                # one fault at a time: with an operation code that has no CDB length AND a missing service action Python raises
+                # whichever it evaluates first (an argument of the parent __init__ call); the IR inlines the parent and does not
+                # model that precedence (DESIGN.md section 7)
+                sa_use = sa
             cases.append(dict(key=ci["key"], stem=ci["stem"], cls=cls, op=opv, sa=sa_use, pos=pos, kw=kw,
                               calls=ci.get("calls", [])))
     return cases
